@@ -26,7 +26,7 @@ CLAIMS = {
         design="7/C13",
     ),
     "C14": dict(
-        text="Machine-checked Coq proofs, unbounded in the value: (1) loads(dumps(v)) = v through xdis.marsh's own reader, and (2) CPython's marshal reader (the strict configuration of the shared reader model, validated against marshal.loads of the installed interpreters in C10) of the magic of EVERY Python 3 version in xdis's table returns v for xdis.marsh.dumps(v) - for every plain value tree: None, booleans, Ellipsis, StopIteration, integers of any magnitude (15-bit digit codec: digits denote the integer, are in range, top digit non-zero), floats/complex (written as text; the decimal string comes back), bytes, valid UTF-8 text, tuples, lists, sets, frozensets, dicts to any depth; the reader stops exactly where dumps stopped and its fuel (input length + 1) suffices; and (3) xdis.marsh's reader returns v for what CPython's own writer emits in format versions 0 and 1 (TYPE_INT when the int fits in 32 bits, '%.17g' float text, 'u' text) - the writer model is compared byte for byte with marshal.dumps(v, 0|1) of the host on every run. Model tied by correspondence: Model.Marsh.dumps vs xdis.marsh.dumps byte for byte; the host's real marshal.loads on those bytes; xdis.marsh.loads of the host's marshal.dumps(v, 0|1) by value, on hosts 3.8-3.13.",
+        text="Machine-checked Coq proofs, unbounded in the value: (1) loads(dumps(v)) = v through xdis.marsh's own reader, and (2) CPython's marshal reader (the strict configuration of the shared reader model, validated against marshal.loads of the installed interpreters in C10) of the magic of EVERY Python 3 version in xdis's table returns v for xdis.marsh.dumps(v) - for every plain value tree: None, booleans, Ellipsis, StopIteration, integers of any magnitude (15-bit digit codec: digits denote the integer, are in range, top digit non-zero), floats/complex (written as text; the decimal string comes back), bytes, valid UTF-8 text, tuples, lists, sets, frozensets, dicts to any depth; the reader stops exactly where dumps stopped and its fuel (input length + 1) suffices; and (3) xdis.marsh's reader returns v for what CPython's own writer emits in format versions 0 and 1 (TYPE_INT when the int fits in 32 bits, '%.17g' float text, 'u' text) - the writer model is compared byte for byte with marshal.dumps(v, 0|1) of the host on every run. Model tied by correspondence: Model.Marsh.dumps vs xdis.marsh.dumps byte for byte (every boundary of the integer encodings, signed zeros and infinities in floats and complex parts, every text class, fixed whatever the seed, plus random trees); xdis.marsh.loads vs the reader model on ill-formed streams too (truncations, unknown codes, negative sizes: the buffer-reader configuration); the host's real marshal.loads on those bytes; xdis.marsh.loads of the host's marshal.dumps(v, 0|1) by value, on hosts 3.8-3.13.",
         note="Trusted: Coq kernel; hand model coq/Model/Marsh.v (dumps) and the shared reader coq/Model/Unmarshal.v; repr(float)/float(str) are the host's (the theorem holds for any repr_float); harness value generator. The host's writer is a model too (validated byte for byte; sets are written by marshal in an order of its own and are compared by value only). Formats 2+ of the host (binary floats, references, short ASCII strings) are read by xdis.unmarshal's reader - C10 - not by xdis.marsh. NaN payloads are outside. No axioms.",
         technique="Coq proof by induction over value trees (reader of writer = identity, generic in the reader configuration) + vm_compute obligation over the magic table + differential correspondence against the host marshal",
         design="7/C14",
@@ -104,7 +104,7 @@ CLAIMS = {
         design="7/C17",
     ),
     "C05": dict(
-        text="Machine-checked Coq proofs: for EVERY byte table the model of findlinestarts bound by a version's opcode table equals that version's dis.findlinestarts (unsigned <3.6, signed 3.6-3.9, cut-off from 3.8); the 3.10 co_lines() model equals lineiter_next's sequence; findlinestarts over co_lines() equals the 3.10-3.12 and the 3.13 rules; offset2line's binary search returns the line of the greatest start <= offset for every strictly increasing mapping (invariant proof). Model tied to /repo by in-Coq correspondence through the opcode modules of 11 versions; 3.11+ location-table decoding is tied to the spec by the C17 theorems.",
+        text="Machine-checked Coq proofs: for EVERY byte table the model of findlinestarts bound by a version's opcode table equals that version's dis.findlinestarts (unsigned <3.6, signed 3.6-3.9, cut-off from 3.8); the 3.10 co_lines() model equals lineiter_next's sequence; findlinestarts over co_lines() equals the 3.10-3.12 and the 3.13 rules; offset2line's binary search returns the line of the greatest start <= offset for every strictly increasing mapping (invariant proof). Model tied to /repo by in-Coq correspondence through the opcode modules of 11 versions; 3.11+ location-table decoding is tied to the spec by the C17 theorems; and on the path a file takes: for 2.7 and 3.6-3.9 the reference interpreter marshals a code object around each table, xdis's unmarshaller loads it and the version's findlinestarts reads the loaded object, compared with that interpreter's own dis.findlinestarts (tables whose bytes form UTF-8 sequences included).",
         note="Trusted: Coq kernel; hand models coq/Model/LineStarts.v, CoLines.v + correspondence harness; Spec/Lnotab.v, Lines310.v, Loc311.v transcribed from CPython and validated on every run against dis.findlinestarts/co_lines() of the installed 2.7, 3.6-3.13. No axioms.",
         technique="Coq proof by induction (decoders, binary-search invariant) + in-Coq correspondence",
         design="7/C05",
